@@ -6,6 +6,16 @@ BASE_NOTE = ("Trusted: Coq 8.16.1 kernel (+vm_compute for finite sweeps), ExtrOc
              "Python generators/zlib. The hand-written Gallina model is tied to /repo by the correspondence run of this check "
              "(differential, generated cases) and a regenerated constants file; ")
 CLAIMED = {
+ "C18": dict(
+   text="Machine-checked theorems (Properties/C18.v), for every width and height >= 1 and every pixel size >= 1 bit, no bound: the scan-line iterator emits exactly the "
+        "specification's Adam7 pass rows and byte lengths (empty passes omitted); raw_data_size equals the specification's total; the routing table of interlace_image is the "
+        "specification's 8x8 matrix; the pixel routing of interlace_image equals the specification's pass images; the k-th pixel of a pass row is source pixel x0+k*dx. "
+        "Tied to the code on every run over every geometry of the tier and decoded by the extracted specification in both directions and there-and-back.",
+   design="DESIGN.md §3 C18",
+   note=BASE_NOTE + "interlace/deinterlace are modelled at pixel granularity (the Rust moves single bits/bytes with the same index arithmetic). The general theorem for the "
+        "deinterlace scatter loop (deinterlace after interlace = identity for all w,h) is not yet proved; that direction is tied by correspondence and the spec oracle on all geometries of the tier. "
+        "u32 overflow of row+step for heights near 2^32 (needs > 8 GB of image data) is not modelled.",
+   technique="Coq proof (induction over passes/rows, lia with div/mod, finite 8x8x7 table by vm_compute lifted through mod 8) + per-geometry correspondence"),
  "C19": dict(
    text="Machine-checked theorems (Properties/C19.v): the specification's reconstruction inverts its filter for every filter type, pixel size and neighbour bytes; "
         "oxipng's filter_line model equals the specification's filter and its unfilter_line equals the specification's reconstruction (all lines, no length bound). "
